@@ -1,11 +1,14 @@
 /-
   C02 — All-predecessor (DAG/Workflow) nodes run at most once, exactly when triggered.
-  Property theorems (channel level so far; the run-level refinement `dag_run_matches_status`
-  of DESIGN.md §4 C02 is stated below as the goal and not yet proved).
+  Property theorems: channel level (firing condition, input, reset, skip), run level
+  (`dag_at_most_once`, `dag_fuel_never_binds`, for every well-formed acyclic runner, input and
+  completion schedule), workflow lowering, eager execution (partial).
   Model: EinoV/Model/Engine.lean.  Facts: EinoV/Gen/FactsC02.lean.
 -/
 import EinoV.Model.Engine
 import EinoV.Proofs.C02
+import EinoV.Proofs.C02Run
+import EinoV.Proofs.C02Compile
 import EinoV.Gen.FactsC02
 import EinoV.Expected.C02
 import EinoV.Proofs.C02Workflow
@@ -114,6 +117,52 @@ theorem skipped_never_fires {V} (ops : ValOps V) (c : Chan V) (h : c.skipped = t
 /-! non-vacuity -/
 example : Triggered ({ ctrl := [("p", Dep.ready), ("q", Dep.skipped)], data := [("p", true)], values := [("p", 3)] } : Chan Nat) := by
   simp [Triggered]
+
+
+/-! ## run level -/
+
+open EinoV.Engine.DagRun in
+/-- **dag_at_most_once.** In all-predecessor mode every node of a well-formed acyclic runner
+    (`DagWF`: distinct keys, START is no node, every node is a declared predecessor of its
+    successors, the predecessor relation is acyclic — what `compile` / `validateDAG` guarantee) is
+    started at most once per run: for every wiring (control-only, data-only and combined
+    dependencies, any number of single and multi-way branches, branches converging on one node,
+    nested skips), all node functions and branch outcomes, every input and every fair completion
+    schedule.  No bound on the size of the graph. -/
+theorem dag_at_most_once {V} (ops : ValOps V) (r : Runner V) (wf : DagWF r) (sched : Sched V)
+    (hf : sched.Fair) (x : V) (k : Key) :
+    ((runS ops r sched x).trace.flatten.map (·.1)).count k ≤ 1 :=
+  run_at_most_once ops r wf sched hf x k
+
+open EinoV.Engine.DagRun in
+/-- **dag_fuel_never_binds.** The model's loop bound for all-predecessor runs (`nodes + 2`
+    rounds; the Go loop has none) is never what ends a run: with any larger bound the run is the
+    same.  (Every round starts a node, and no node starts twice.) -/
+theorem dag_fuel_never_binds {V} (ops : ValOps V) (r : Runner V) (wf : DagWF r) (sched : Sched V)
+    (hf : sched.Fair) (x : V) (cm : Chans V) (ts : List (Key × V))
+    (hc : calcNext ops r (initChans r) [(START, x)] = .ok (cm, .tasks ts)) (extra : Nat) :
+    loop ops r sched (r.fuel + extra) cm ts [] = loop ops r sched r.fuel cm ts [] :=
+  run_fuel_enough ops r wf sched hf x cm ts hc extra
+
+open EinoV.Engine.DagRun in
+/-- **dag_wf_check_sound.** The executable well-formedness check the oracle evaluates on every
+    generated all-predecessor case implies the hypothesis of the run-level theorems. -/
+theorem dag_wf_check_sound {V} (r : Runner V) (h : dagWFb r = true) : DagWF r := dagWFb_sound r h
+
+open EinoV.Engine.DagRun in
+/-- **compiled_graph_declares_predecessors.** Whatever `AddEdge` / `AddBranch` recorded, the
+    compiled runner lists every node as a control predecessor of each of its successors (one of
+    the clauses of `DagWF`, here for every graph definition). -/
+theorem compiled_graph_declares_predecessors {V} (slack : Nat) (g : GraphDef V) (hd : g.dag = true) :
+    SuccOK (compile slack g) := compile_succOK slack g hd
+
+/-! non-vacuity: a diamond with a two-way branch and a converging node satisfies `DagWF` -/
+def gDiamond : GraphDef Nat :=
+  { dag := true, nodes := [("a", fun v => .ok (v + 1)), ("b", fun v => .ok (v * 2)), ("c", fun v => .ok v), ("d", fun v => .ok v)],
+    edges := [(START, "a"), ("b", "d"), ("c", "d"), ("d", END)],
+    branches := [("a", { ends := ["b", "c", "d"], cond := fun v => .ok (if v % 2 == 0 then ["b"] else ["c", "d"]) })] }
+
+example : EinoV.Engine.DagRun.dagWFb (compile 0 gDiamond) = true := by decide
 
 end EinoV.C02
 
